@@ -72,7 +72,49 @@ def acq_py(a, b):
     return sum(a[2 * i + 1] * b[2 * i] - a[2 * i] * b[2 * i + 1] for i in range(len(a) // 2)) % 2
 
 
-CHECKS = {'measure': c_measure}
+def c_measure_forms(ctx, args):
+    """argument forms of StabilizerState.measure: a single Pauli, a PauliList, a StabilizerState (= its active stabilizers, rows [r_arg, N) of ITS tableau).
+    Oracle without the model: under the same seed of the outcome generator every form gives the outcomes, log-probability and post-state of the list form."""
+    t, u, seed = args                      # measured state, argument state
+    n = len(t[0]) // 2
+    obs = u[0][u[1]:n]                      # the documented observables of a state argument
+    if not obs:
+        return None
+    s0 = NP.STATE(t)
+    NP.seed_numba(seed)
+    out0, lp0 = s0.measure(NP.PL(obs))
+    ref = (S.st_list(s0), [int(v) for v in out0], float(lp0))
+    s1 = NP.STATE(t)
+    arg = NP.STATE(u)
+    before = S.st_list(arg)
+    NP.seed_numba(seed)
+    try:
+        out1, lp1 = s1.measure(arg)
+    except Exception as e:
+        return {'kind': 'oracle', 'where': 'np:measure(StabilizerState) raised %s' % type(e).__name__, 'observed': str(e)[:100], 'expected': 'outcomes of its active stabilizers'}
+    got = (S.st_list(s1), [int(v) for v in out1], float(lp1))
+    if got != ref:
+        return {'kind': 'oracle', 'where': 'np:measure(StabilizerState argument) differs from measuring its active stabilizers as a list', 'observed': got, 'expected': ref,
+                'tags': ['state_argument', 'rank_arg_%s_rank_self' % ('eq' if u[1] == t[1] else 'ne')]}
+    if S.st_list(arg) != before:
+        return {'kind': 'oracle', 'where': 'np:measure modified its StabilizerState argument', 'observed': S.st_list(arg), 'expected': before}
+    # a single Pauli = the one-element list
+    s2, s3 = NP.STATE(t), NP.STATE(t)
+    NP.seed_numba(seed)
+    o2 = s2.measure(NP.PL(obs[:1]))
+    NP.seed_numba(seed)
+    try:
+        o3 = s3.measure(NP.P(obs[0]))
+    except Exception as e:
+        return None                        # a bare Pauli is not an accepted form everywhere; nothing to compare
+    a = (S.st_list(s2), [int(v) for v in np.atleast_1d(o2[0])], float(o2[1]))
+    b = (S.st_list(s3), [int(v) for v in np.atleast_1d(o3[0])], float(o3[1]))
+    if a != b:
+        return {'kind': 'oracle', 'where': 'np:measure(Pauli) differs from measure([Pauli])', 'observed': b, 'expected': a}
+    return None
+
+
+CHECKS = {'measure': c_measure, 'measure_forms': c_measure_forms}
 
 
 def all_tableaux_1q():
@@ -128,3 +170,9 @@ def run(ctx):
             ctx.res.nontrivial.add(('m', it))
         ctx.res.count('rank%d_of_N%d' % (t[1], n))
         ctx.res.count('undetermined' if any(flags) else 'all_determined')
+    # argument forms: a StabilizerState argument of every rank against a measured state of every rank
+    for it in range(int(80 * B)):
+        n = rng.randint(1, 5)
+        t = gen.rtableau(rng, ctx.model, n)
+        u = gen.rtableau(rng, ctx.model, n)
+        do(ctx, 'measure_forms', [t, u, rng.randrange(10 ** 6)], nontrivial=('f', it) if t[1] != u[1] else None)
